@@ -15,7 +15,7 @@ META = {
     "return types, generic subclasses that fix or re-order parameters, Iterable[T] subclasses (generic, generic-of-generic, concrete), a "
     "registered collection class, a dataclass, methods without return annotation; random well-typed expressions of depth <= 4 built "
     "type-directed (method chains, First, [0], Count, len, comparisons, and/or, + - * /, dict and dataclass field access, nested "
-    "Select/Where on collections) through Select / SelectMany / Where sequences of 1-4 stages; oracle: the harness's own type derivation "
+    "Select/Where on collections) through Select / SelectMany / Where sequences of 1-4 stages, nested lambda parameters re-using the names of enclosing ones (of other types); oracle: the harness's own type derivation "
     "(own MRO / type-variable substitution walk, rules taken from the property statement) vs stream.item_type and the third result of "
     "remap_by_types; sequences are accepted as any type whose element type (own walk) equals the expected element type; a non-boolean "
     "Where must raise ValueError; distinct by lambda text; non-trivial = the expected type involves a substituted type variable, an "
